@@ -2,7 +2,7 @@
 from . import sm, ps, ef, z, mainspec, dynrf, mainloop, io, leaf, sig
 
 A_IDEAL = 'A-IDEAL: float/double arithmetic treated as real arithmetic, source literals exact (rounding not modelled)'
-A_SUMCOMM = 'L-SUMCOMM: interchange of finite double sums (column sums = 1 => total conserved) not machine-checked'
+A_SUMCOMM = 'L-SUMCOMM: column sums = 1 => total conserved (and the epsilon-bound variant) is machine-checked by Lean 4 + Mathlib on every run (lemmas/SumComm.lean); that the code operator has the matrix form of the lemma is what the apply() contracts prove'
 A_LIB = 'library containers (std::vector, boost::multi_array, shared_ptr) behave as sequences/references (models in vf/models.py)'
 DROPS = 'extraction drops: preprocessor-disabled OpenCL/OpenGL/PNG branches, destructors of temporaries, text output, exception propagation'
 
@@ -37,6 +37,7 @@ PROPERTIES = {
         'units': SM_KICK + SM_FP + [sm.IdentityApply],
         'native_sweep': _kick_sweep(),
         'lemmas': [sm.lemmas_weights, sm.lemmas_c01_col, sm.lemmas_fp, sm.lemmas_fp_transition],
+        'lean': [('lemmas/SumComm.lean', 'L-SUMCOMM.total_conserved_of_column_sums_one', {'C01'})],
         'level': 'proof',
         'claim': 'every transport operator (kick maps via table rows, Fokker-Planck stencil, identity) has interior column sums 1 '
                  '(FP: within e1 next to the zero-energy bin): functional posts of apply + row contracts of the table builders + weight lemmas; '
@@ -122,14 +123,15 @@ PROPERTIES = {
         'technique': TECH,
     },
     'C07': {
-        'units': [ef.UpdateCSR, z.FreeSpaceCSRCalc, z.ResistiveWallCalc, z.ConstImpedanceCalc, z.ParallelPlatesCalc, z.CollimatorCtor, z.MakeImpedance],
+        'units': [ef.UpdateCSR, ef.WakePotential, z.FreeSpaceCSRCalc, z.ResistiveWallCalc, z.ConstImpedanceCalc, z.ParallelPlatesCalc, z.CollimatorCtor, z.MakeImpedance],
         'lemmas': [],
+        'lean': [('lemmas/Parseval.lean', 'L-PARSEVAL.power_eq_wake_loss', {'C07'})],
         'level': 'other',
         'claim': 'every spectrum sample equals renorm * g(f_i) * Re Z[i] * |F_n[i]|^2 with the impedance and cut-off of THIS call (g = 1 or 1 - exp(-(f_i/f_c)^2)) and F_n the forward transform of bunch n current profile over the untouched padding; '
                  'for a passive impedance the CSR spectrum is non-negative at every frequency and bunch, the integrated power is the frequency step times the sum of the spectrum and is non-negative '
                  '(with or without cutoff); passivity of the impedance models and of the factory sum is proved under C16',
-        'assumptions': [A_IDEAL, A_LIB, DROPS, 'L-PARSEVAL: equality with one half of profile times wake is not machine-checked', 'libm: 0 < exp(x), exp(x) <= 1 for x <= 0', 'multiplication abstracted to its sign rules'],
-        'uncovered': ['Parseval identity between spectrum power and wake loss (L-PARSEVAL)', 'monotonicity in the cutoff'],
+        'assumptions': [A_IDEAL, A_LIB, DROPS, 'L-PARSEVAL: sum_j rho_j W_j = sum_k c_k Re Z_k |F_k|^2 for W_j = sum_k c_k Re(Z_k F_k e_jk) is machine-checked by Lean 4 + Mathlib on every run (lemmas/Parseval.lean); that FFTW c2r of the half spectrum IS that sum (c_0 = 1, c_k = 2) is the FFTW contract A-FFTW-C2R', 'libm: 0 < exp(x), exp(x) <= 1 for x <= 0', 'multiplication abstracted to its sign rules'],
+        'uncovered': ['monotonicity in the cutoff', 'the Nyquist term when the transform length is even (statement excludes it)'],
         'explanation': 'sign and summation posts of updateCSR',
         'technique': TECH,
     },
